@@ -88,8 +88,8 @@ type Net struct {
 	// unread are merged into one segment, as TCP does with back-to-back writes.
 	DefaultSeg int
 	Coalesce   bool
-	udpExtra       map[string][]*UDPSock
-	lstExtra       map[string][]*Listener
+	udpExtra   map[string][]*UDPSock
+	lstExtra   map[string][]*Listener
 }
 
 // New creates an empty network.
@@ -262,10 +262,10 @@ type UDPSock struct {
 	rdl      time.Time
 	rdlCh    chan struct{} // closed+replaced whenever the deadline changes
 	// fault injection
-	ReadErr  error // returned by the next ReadFrom (once)
-	WriteErr error // returned by every WriteTo while set
+	ReadErr      error // returned by the next ReadFrom (once)
+	WriteErr     error // returned by every WriteTo while set
 	WriteErrOnce bool
-	calls    int // progress monitor
+	calls        int // progress monitor
 	// Manual sockets are harness endpoints: nothing reads them but Drain.
 	Reads int
 	reuse bool // bound with SO_REUSEPORT (ModelReusePort)
@@ -606,15 +606,15 @@ func (s *UDPSock) SetWriteDeadline(time.Time) error { return nil }
 // ---------------------------------------------------------------- TCP
 
 type half struct {
-	mu      sync.Mutex
-	segs    [][]byte
-	eof     bool // writer closed
-	notify  chan struct{}
-	coalesce bool // merge a write into the previous unread segment
-	maxSeg  int   // >0: writes are split into segments of at most maxSeg bytes
-	cuts    []int // explicit absolute cut offsets for the writer (sorted); used before maxSeg
-	written int
-	total   int
+	mu       sync.Mutex
+	segs     [][]byte
+	eof      bool // writer closed
+	notify   chan struct{}
+	coalesce bool  // merge a write into the previous unread segment
+	maxSeg   int   // >0: writes are split into segments of at most maxSeg bytes
+	cuts     []int // explicit absolute cut offsets for the writer (sorted); used before maxSeg
+	written  int
+	total    int
 }
 
 func newHalf() *half { return &half{notify: make(chan struct{}, 1)} }
@@ -664,7 +664,30 @@ type Conn struct {
 	ReadErr       error
 	WriteErr      error
 	BytesRead     int
-	Role          string // "dialer" or "accepted"
+	Role          string        // "dialer" or "accepted"
+	stalled       bool          // StallWrites: the other side has stopped reading and the window is full
+	unstall       chan struct{} // closed when the stall ends
+}
+
+// StallWrites makes every Write on this endpoint block (the remote application has stopped reading, the
+// send window is full) until the stall is lifted, either endpoint is closed or the write deadline passes.
+func (c *Conn) StallWrites(on bool) {
+	c.mu.Lock()
+	defer c.mu.Unlock()
+	if on && !c.stalled {
+		c.stalled, c.unstall = true, make(chan struct{})
+	} else if !on && c.stalled {
+		c.stalled = false
+		close(c.unstall)
+	}
+}
+
+func (c *Conn) writable() bool {
+	c.mu.Lock()
+	st, cl, dl := c.stalled, c.closedFlag, c.wdl
+	c.mu.Unlock()
+
+	return !st || cl || c.peer.isClosed() || (!dl.IsZero() && !time.Now().Before(dl))
 }
 
 func (c *Conn) isClosed() bool {
@@ -795,7 +818,35 @@ func (c *Conn) Write(p []byte) (int, error) {
 
 		return 0, timeoutErr{}
 	}
+	st, un, dl := c.stalled, c.unstall, c.wdl
 	c.mu.Unlock()
+	if st {
+		if sc := c.n.Sched; sc != nil && sc.Managed() {
+			sc.Block("tcp-write-window-full", c.local.String(), c.writable)
+		} else {
+			var timeout <-chan time.Time
+			if !dl.IsZero() {
+				t := time.NewTimer(time.Until(dl))
+				defer t.Stop()
+				timeout = t.C
+			}
+			select {
+			case <-un:
+			case <-c.closed:
+			case <-c.peer.closed:
+			case <-timeout:
+			}
+		}
+		c.mu.Lock()
+		cl, dl := c.closedFlag, c.wdl
+		c.mu.Unlock()
+		if cl {
+			return 0, net.ErrClosed
+		}
+		if !dl.IsZero() && !time.Now().Before(dl) {
+			return 0, timeoutErr{}
+		}
+	}
 	if c.peer.isClosed() {
 		return 0, errors.New("simnet: write: broken pipe")
 	}
@@ -1333,10 +1384,10 @@ func (a netAdapter) ResolveTCPAddr(_, address string) (*net.TCPAddr, error) {
 	return &net.TCPAddr{IP: ip, Port: port}, nil
 }
 
-func (a netAdapter) Interfaces() ([]*transport.Interface, error)           { return nil, errNotImpl }
-func (a netAdapter) InterfaceByIndex(int) (*transport.Interface, error)     { return nil, errNotImpl }
-func (a netAdapter) InterfaceByName(string) (*transport.Interface, error)   { return nil, errNotImpl }
-func (a netAdapter) CreateDialer(d *net.Dialer) transport.Dialer            { return dialer{a.Net, d} }
+func (a netAdapter) Interfaces() ([]*transport.Interface, error)          { return nil, errNotImpl }
+func (a netAdapter) InterfaceByIndex(int) (*transport.Interface, error)   { return nil, errNotImpl }
+func (a netAdapter) InterfaceByName(string) (*transport.Interface, error) { return nil, errNotImpl }
+func (a netAdapter) CreateDialer(d *net.Dialer) transport.Dialer          { return dialer{a.Net, d} }
 func (a netAdapter) CreateListenConfig(c *net.ListenConfig) transport.ListenConfig {
 	return listenCfg{a.Net, c != nil && c.Control != nil}
 }
@@ -1393,11 +1444,11 @@ func (l listenCfg) ListenPacket(_ context.Context, network, address string) (net
 
 type udpAdapter struct{ *UDPSock }
 
-func (u udpAdapter) RemoteAddr() net.Addr       { return nil }
-func (u udpAdapter) SetReadBuffer(int) error    { return nil }
-func (u udpAdapter) SetWriteBuffer(int) error   { return nil }
-func (u udpAdapter) Read([]byte) (int, error)   { return 0, errNotImpl }
-func (u udpAdapter) Write([]byte) (int, error)  { return 0, errNotImpl }
+func (u udpAdapter) RemoteAddr() net.Addr      { return nil }
+func (u udpAdapter) SetReadBuffer(int) error   { return nil }
+func (u udpAdapter) SetWriteBuffer(int) error  { return nil }
+func (u udpAdapter) Read([]byte) (int, error)  { return 0, errNotImpl }
+func (u udpAdapter) Write([]byte) (int, error) { return 0, errNotImpl }
 func (u udpAdapter) ReadFromUDP(b []byte) (int, *net.UDPAddr, error) {
 	n, a, err := u.ReadFrom(b)
 	ua, _ := a.(*net.UDPAddr)
